@@ -19,7 +19,7 @@ SEARCH_AOBJ = $(patsubst engines/%.cpp,$(B)/asan/%.o,$(SEARCH_SRC))
 .PHONY: all prod asan clean
 all: prod asan
 asan: $(B)/copymove_asan $(B)/search_asan $(B)/multidim_asan $(B)/mapped_asan $(B)/dynamic_asan $(B)/cabi_asan
-prod: $(B)/conc_mc $(B)/conc_tsan $(B)/search $(B)/segmentation $(B)/dynamic $(B)/multidim $(B)/mapped $(B)/cabi $(B)/reject
+prod: $(B)/ompbind_real $(B)/conc_mc $(B)/conc_tsan $(B)/search $(B)/segmentation $(B)/dynamic $(B)/multidim $(B)/mapped $(B)/cabi $(B)/reject
 
 $(STAMP):
 	@mkdir -p $(B) && touch $@
@@ -95,6 +95,9 @@ $(B)/conc_mc: $(B)/conc/main.o $(B)/conc/zoo.o $(B)/conc/vrt.o
 	$(CXX) $^ -o $@ -pthread -ldl -Wl,--wrap=__cxa_guard_acquire -Wl,--wrap=__cxa_guard_release -Wl,--wrap=__cxa_guard_abort
 $(B)/conc_tsan: engines/conc_tsan_main.cpp $(B)/conc/zoo.o
 	$(CLANGXX) $(TSANFLAGS) $^ -o $@ -pthread
+
+$(B)/ompbind_real: engines/ompbind_main.cpp engines/ompbind.hpp engines/keyspace.hpp mc/common.hpp $(STAMP)
+	$(CXX) -std=gnu++17 -O2 -DNDEBUG -march=native -fopenmp -fno-access-control -I$(REPO)/include -I. -w $< -o $@
 
 $(B)/search_asan: $(SEARCH_AOBJ)
 	$(CXX) $(ASAN) $^ -o $@
